@@ -626,7 +626,6 @@ func check(ops []string, res *hlib.Result, count bool) []verdict {
 
 func checkOnly(ops []string, res *hlib.Result, count bool, only string) []verdict {
 	ht := &hashTable{ids: map[hash.Hash]int{}}
-	var vs []verdict
 	outs := map[string]*runOut{}
 	for _, k := range backends {
 		if only != "" && only != k {
@@ -635,6 +634,13 @@ func checkOnly(ops []string, res *hlib.Result, count bool, only string) []verdic
 		}
 		outs[k] = runBackend(k, ops, ht, k == "badger")
 	}
+	return judge(ops, outs, res, count, only)
+}
+
+// judge decides a case from what the backends answered (separate from running them, so that the
+// self-test can feed it altered answers).
+func judge(ops []string, outs map[string]*runOut, res *hlib.Result, count bool, only string) []verdict {
+	var vs []verdict
 	// 1. the badger bookkeeping model as an exact oracle of the badger backend; its notes name
 	//    the bookkeeping rule behind every unreadable root / failed prune it predicts.
 	notes := map[string]string{}
@@ -775,6 +781,88 @@ func checkOnly(ops []string, res *hlib.Result, count bool, only string) []verdic
 		}
 	} else if count && res != nil {
 		res.Count("cross:skipped-restricted")
+	}
+	return vs
+}
+
+// ---------------------------------------------------------------- self-test: known findings must not mask
+
+// selfTestMasking takes a history that triggers a KNOWN defect (D3: badger Finalize deletes a node
+// the finalized root inherits) and alters the recorded answers of the badger backend so that, in
+// addition, an older finalized root (a) returns foreign contents, (b) is unreadable although the
+// bookkeeping model says it is readable, (c) is no longer reported. Each alteration must surface
+// under a signature different from every signature of the unaltered run: a new kind of wrong
+// answer on a history with a known finding is never hidden behind the known finding.
+func selfTestMasking() []verdict {
+	ops := []string{"commit r1 0 1 - a=1,b=2", "finalize 1 r1", "commit r3 0 2 - a=1", "commit r4 0 2 r1 c=3", "finalize 2 r4"}
+	run := func(mut func(o *runOut)) map[string]bool {
+		ht := &hashTable{ids: map[hash.Hash]int{}}
+		outs := map[string]*runOut{"badger": runBackend("badger", ops, ht, true), "pathbadger": {restrict: true, cutOp: -1}}
+		if mut != nil {
+			mut(outs["badger"])
+		}
+		sigs := map[string]bool{}
+		for _, v := range judge(ops, outs, nil, false, "badger") {
+			sigs[v.sig] = true
+		}
+		return sigs
+	}
+	base := run(nil)
+	var vs []verdict
+	if !base["badger:finalized-root-unreadable:finalize:put-by-a-discarded-root-but-inherited-by-a-kept-root"] {
+		// the defect was repaired: nothing to mask any more
+		return nil
+	}
+	// the last observation of the version-1 root r1 (hash id 1: first committed root)
+	lastIdx := func(lines []string, prefix string) int {
+		for i := len(lines) - 1; i >= 0; i-- {
+			if strings.HasPrefix(lines[i], prefix) {
+				return i
+			}
+		}
+		return -1
+	}
+	cases := []struct {
+		name string
+		want string
+		mut  func(o *runOut)
+	}{
+		{"foreign contents under an older finalized root", "badger:foreign-contents-finalized", func(o *runOut) {
+			if i := lastIdx(o.lines, "read 1 0 1 "); i >= 0 {
+				o.lines[i] = "read 1 0 1 zz=9"
+			}
+		}},
+		{"older finalized root unreadable against the model", "badger-model:readable-mismatch", func(o *runOut) {
+			if i := lastIdx(o.lines, "read 1 0 1 "); i >= 0 {
+				o.lines[i] = "read 1 0 1 !node_not_found"
+			}
+			if i := lastIdx(o.blines, "readable 1 0 1 "); i >= 0 {
+				o.blines[i] = "readable 1 0 1 0"
+			}
+		}},
+		{"older finalized root no longer reported", "badger:finalized-root-missing", func(o *runOut) {
+			if i := lastIdx(o.lines, "has 1 0 1 "); i >= 0 {
+				o.lines[i] = "has 1 0 1 0"
+			}
+		}},
+	}
+	for _, c := range cases {
+		got := run(c.mut)
+		fresh := false
+		for s := range got {
+			if !base[s] {
+				fresh = true
+			}
+		}
+		if !got[c.want] || !fresh {
+			var l []string
+			for s := range got {
+				l = append(l, s)
+			}
+			sort.Strings(l)
+			vs = append(vs, verdict{"divergence", "selftest:known-finding-masks-new-failure",
+				fmt.Sprintf("altered answers (%s) must yield the new signature %s; got %v", c.name, c.want, l)})
+		}
 	}
 	return vs
 }
@@ -1037,6 +1125,10 @@ func main() {
 			}
 		}
 	}
+	for _, v := range selfTestMasking() {
+		res.Fail(hlib.Failure{Kind: v.kind, Detail: v.detail, Case: []string{"selftest"}, Sig: v.sig})
+	}
+	res.Count("selftest:masking")
 	rng := hlib.NewRng(*seed)
 	seen := map[string]bool{}
 	sigs := map[string]int{}
